@@ -92,11 +92,20 @@ Theorem C16_update_denote : forall dst src sh y,
 Proof. exact update_in_spec. Qed.
 Print Assumptions C16_update_denote.
 
+(* ... and by a NonTensorData of ANY batch size, into any nesting of stacks whose members may have batch dims (after the
+   repair of C16-k: the value is handed to every member as it is) *)
+Theorem C16_update_shared_denote : forall dst q s' sh y,
+  wf dst = true -> shape dst = Some sh -> update_in dst (Shared q s') = Ok y ->
+  shape y = Some sh /\ wf y = true /\ forall I, denote y I = if in_range sh I then Some q else None.
+Proof. exact update_in_shared. Qed.
+Print Assumptions C16_update_shared_denote.
+
 (* td[idx] = value (TensorDict._set_at_str, non-tensor branch): whichever branch runs — nothing written because the values
    are already there, or promotion of a shared object to a stack (maybe_to_stack) followed by the lazy __setitem__ —
    afterwards the addressed positions hold the value's objects and every other position holds what it held.
-   Index grammar: ints, slices, None-free prefixes, one 1-d integer index anywhere (what the model of the write covers:
-   for the others `set_at` answers OutOfModel, never Ok) *)
+   Index grammar: ints, slices, None anywhere (after the repair of C16-f: the Nones reach the members without batch dims,
+   which take the squeezed value), one 1-d integer index anywhere (what the model of the write covers: for the others
+   `set_at` answers OutOfModel, never Ok) *)
 Theorem C16_setitem_denote : forall x idx v sh r y,
   wf x = true -> shape x = Some sh -> n_adv idx <= 1 -> ix_shape idx sh = Some r ->
   wf v = true -> shape v = Some r -> set_at x idx v v = Ok y ->
@@ -138,6 +147,17 @@ Theorem C16_cat_denote : forall a b dim y sa sb na nb,
 Proof. exact cat_denote. Qed.
 Print Assumptions C16_cat_denote.
 
+(* torch.cat called on the entries themselves (after the repair of C16-c; the lazy mask path does this with the members'
+   pieces): the same array as the tensordict-level cat *)
+Theorem C16_entry_cat_denote : forall a b dim y sa sb na nb,
+  wf a = true -> wf b = true -> shape a = Some sa -> shape b = Some sb ->
+  nth_error sa dim = Some na -> nth_error sb dim = Some nb -> remove_at dim sa = remove_at dim sb ->
+  cat_entries [a; b] dim = Ok y ->
+  forall I k, nth_error I dim = Some k ->
+    denote y I = if k <? na then denote a I else denote b (insert_at dim (k - na) (remove_at dim I)).
+Proof. exact cat_denote. Qed.
+Print Assumptions C16_entry_cat_denote.
+
 (* to_dict (after the repair of D20): the nested list of a stack is the array in batch order *)
 Theorem C16_to_dict_rowmajor : forall d l sh t,
   wf (Stack d l) = true -> shape (Stack d l) = Some sh -> to_dict (Stack d l) = Ok (GList t) ->
@@ -176,4 +196,26 @@ Example C16_ex_fixed :
   cat_nt [Shared 1%Z [1]; Shared 2%Z [1]] 0 = Ok (Stack 0 [Shared 1%Z []; Shared 2%Z []]) /\
   cat_nt [Shared 1%Z [1; 2]; Shared 1%Z [1; 1]] 1 = Ok (Shared 1%Z [1; 3]) /\
   to_dict (Stack 0 [Shared 1%Z []; Shared 2%Z []]) = Ok (GList (Node [Leaf 1%Z; Leaf 2%Z])).
+Proof. repeat split; vm_compute; reflexivity. Qed.
+(* the repairs of this round: what the model answers with the repair ([true], = /repo once PENDING-C16-c/f/k are committed) and
+   without it ([false], the witness of the defect) *)
+Example C16_ex_repaired_f :
+  set_at (Shared 1%Z [2]) [INone; INone] (Shared 2%Z [1; 1; 2]) (Shared 2%Z [1; 1; 2]) = Ok (Stack 0 [Shared 2%Z []; Shared 2%Z []]) /\
+  ix_shape [INone; INone] [2] = Some [1; 1; 2] /\
+  set_at (Stack 0 [Shared 1%Z []; Shared 1%Z []]) [INone; IInt 1%Z; INone] (Shared 3%Z [1; 1]) (Shared 3%Z [1; 1]) =
+    Ok (Stack 0 [Shared 1%Z []; Shared 3%Z []]) /\
+  leaf_newaxis_write true (Shared 1%Z []) [] [INone; INone] (Shared 2%Z [1; 1]) = Ok (Shared 2%Z []) /\
+  leaf_newaxis_write false (Shared 1%Z []) [] [INone; INone] (Shared 2%Z [1; 1]) = Ok (Shared 1%Z []).
+Proof. repeat split; vm_compute; reflexivity. Qed.
+Example C16_ex_repaired_k :
+  update_in_f true (Stack 0 [Shared 1%Z [1]; Shared 1%Z [1]]) (Shared 2%Z [2; 1]) = Ok (Stack 0 [Shared 2%Z [1]; Shared 2%Z [1]]) /\
+  update_in_f false (Stack 0 [Shared 1%Z [1]; Shared 1%Z [1]]) (Shared 2%Z [2; 1]) = Raised /\
+  update_in = update_in_f true.
+Proof. repeat split; vm_compute; reflexivity. Qed.
+Example C16_ex_repaired_c :
+  cat_entries_f true [Shared 1%Z [1]; Shared 2%Z [1]] 0 = Ok (Stack 0 [Shared 1%Z []; Shared 2%Z []]) /\
+  cat_entries_f false [Shared 1%Z [1]; Shared 2%Z [1]] 0 = Ok (Shared 1%Z [2]) /\
+  cat_entries_f true [Stack 0 [Shared 1%Z []]; Shared 2%Z [1]] 0 = Ok (Stack 0 [Shared 1%Z []; Shared 2%Z []]) /\
+  cat_entries_f false [Stack 0 [Shared 1%Z []]; Shared 2%Z [1]] 0 = Raised /\
+  cat_entries = cat_entries_f true.
 Proof. repeat split; vm_compute; reflexivity. Qed.
